@@ -495,7 +495,10 @@ fn lineline_case<S: Fl>(ctx: &mut Ctx) {
                 let p = p64(p);
                 let m = maxabs(&[l.point, o.point]).max(n1).max(n2).max(p.0.abs()).max(p.1.abs());
                 let cond = (n1 * n2 / d.abs()).max(1.0);
-                let tol = 256.0 * S::EPS * m * cond * cond;
+                // lyon forms `point + vector` before the cross product: the direction is only
+                // known to relative precision eps·m/|vector| afterwards
+                let amp = 1.0 + m / n1 + m / n2;
+                let tol = 256.0 * S::EPS * m * cond * cond * amp;
                 let e1 = cross(v1, sub(p, p1)).abs() / n1;
                 let e2 = cross(v2, sub(p, p2)).abs() / n2;
                 orc.check(e1 <= tol && e2 <= tol, "line.intersection/on-both", "generic", || format!("dist to self {:e}, to other {:e}, tol {:e}", e1, e2, tol));
@@ -604,7 +607,8 @@ fn curve_line_oracle<S: Fl>(
             let p = bez(ctrl, r);
             let sl = norm(sub(s1, s0));
             let along = ((p.0 - s0.0) * (s1.0 - s0.0) + (p.1 - s0.1) * (s1.1 - s0.1)) / (sl * sl);
-            well = well && along > 0.05 && along < 0.95;
+            // well inside the segment, by more than the rounding of evaluating the curve
+            well = well && along > 0.05 && along < 0.95 && along * sl > 4.0 * sound_tol && (1.0 - along) * sl > 4.0 * sound_tol;
         }
         if well {
             let hit = ts.iter().any(|t| (t - r).abs() <= param_tol);
@@ -818,6 +822,9 @@ fn lyon_eps_for(m: f64, bits: u32) -> f64 {
 ///  * `cardano-double-root-eps`: one real root (discriminant clearly positive) but the
 ///    "repeated root" test `|s - t| < epsilon` passes because `epsilon` is taken from the
 ///    magnitude of the raw coefficients while `s`, `t` belong to the normalised polynomial;
+///  * `cardano-cancellation`: one real root and `|delta0|³ ≤ delta1²/100`, so that
+///    `delta1 - sqrt(delta0³ + delta1²)` (or `+`) cancels and its cube root carries an error of
+///    the order of the cube root of the machine epsilon;
 ///  * `eps-table-gap`: the magnitude falls in 4096..=5095 where the f32 table of
 ///    `epsilon_for` has no arm and yields 1.0.
 fn cubic_class(co: [f64; 4], bits: u32) -> (&'static str, f64) {
@@ -845,6 +852,9 @@ fn cubic_class(co: [f64; 4], bits: u32) -> (&'static str, f64) {
         let t = (d1 - d01.sqrt()).cbrt();
         if (s - t).abs() < eps && (s + t).abs() >= eps && (s - t).abs() > 1e-3 * (s.abs() + t.abs()) {
             return ("cardano-double-root-eps", r);
+        }
+        if d1 != 0.0 && d1 * d1 >= 100.0 * d0.abs().powi(3) {
+            return ("cardano-cancellation", r);
         }
     }
     (base, r)
@@ -916,7 +926,7 @@ fn cubicline_case<S: Fl>(ctx: &mut Ctx) {
             let tsf: Vec<f64> = ts.iter().map(|t| t.f()).collect();
             let finite = ctrl.iter().all(|p| p.0.is_finite() && p.1.is_finite());
             if finite {
-                curve_line_oracle::<S>(&mut orc, "cubic.line_intersections_t", class, &ctrl, p64(l.point), v64(l.vector), &tsf, None, curve_tol::<S>(&ctrl, p64(l.point), rr), if S::BITS == 32 { 1e-2 } else { 1e-5 });
+                curve_line_oracle::<S>(&mut orc, "cubic.line_intersections_t", class, &ctrl, p64(l.point), v64(l.vector), &tsf, None, curve_tol::<S>(&ctrl, p64(l.point), rr), (if S::BITS == 32 { 1e-2 } else { 1e-5 }) + 1024.0 * S::EPS * rr);
             } else {
                 orc.skip("non-finite-input");
             }
@@ -949,7 +959,7 @@ fn cubicseg_case<S: Fl>(ctx: &mut Ctx) {
                 orc.check(r.is_empty(), "cubic.line_segment_intersections_t/point-segment-none", "generic", || format!("{:?}", pairs));
             } else {
                 let st = curve_tol::<S>(&ctrl, p64(l.point), rr);
-                curve_line_oracle::<S>(&mut orc, "cubic.line_segment_intersections_t", class, &ctrl, p64(l.point), v64(l.vector), &tsf, Some((p64(s.from), p64(s.to))), st, if S::BITS == 32 { 1e-2 } else { 1e-5 });
+                curve_line_oracle::<S>(&mut orc, "cubic.line_segment_intersections_t", class, &ctrl, p64(l.point), v64(l.vector), &tsf, Some((p64(s.from), p64(s.to))), st, (if S::BITS == 32 { 1e-2 } else { 1e-5 }) + 1024.0 * S::EPS * rr);
                 seg_param_oracle(&mut orc, "cubic.line_segment_intersections_t", class, &ctrl, &s, &pairs, st * 4.0);
             }
             CaseOut { imp: out, orcl: orc.verdict }
@@ -1012,7 +1022,13 @@ fn polyroots_case<S: Fl>(ctx: &mut Ctx) {
                 let mm = a.abs().max(b.abs()).max(c.abs()).max(d.abs());
                 let ax = x.abs();
                 let scale = mm * (1.0 + ax + ax * ax + ax * ax * ax);
-                let tol = 512.0 * S::EPS * (1.0 + rr) * scale + lyon_eps_for(mm, S::BITS) * ax * ax * ax.max(1.0);
+                if rr > 100.0 {
+                    // |b/a| etc. beyond 100: normalising by `a` is ill-conditioned (errors of the
+                    // order sqrt(eps)·R in the trigonometric branch); no demand
+                    orc.skip("ill-conditioned-normalisation");
+                    continue;
+                }
+                let tol = 512.0 * S::EPS * (1.0 + rr) * (1.0 + rr) * scale + lyon_eps_for(mm, S::BITS) * ax * ax * ax.max(1.0);
                 if std::env::var("C12_STATS").is_ok() {
                     eprintln!("STAT polyroots {} {:e}", class, res / tol);
                 }
@@ -1198,7 +1214,23 @@ fn cubiccubic_case<S: Fl>(ctx: &mut Ctx) {
                 if t > 0.1 && t < 0.9 && u > 0.1 && u < 0.9 && sep > 0.15 && transversal && refx.len() <= 4 {
                     demanded += 1;
                     let hit = r.iter().any(|(t2, u2)| (t2.f() - t).abs() <= 2e-2 && (u2.f() - u).abs() <= 2e-2);
-                    orc.check(hit, "cubic.cubic_intersections_t/complete", "generic", || format!("transversal crossing near t={:.4} u={:.4} not reported; got {:?}", t, u, r.iter().map(|x| (x.0.f(), x.1.f())).collect::<Vec<_>>()));
+                    // witness class: single precision misses the crossing although the same query
+                    // in double precision (same control points) – or in the other argument order –
+                    // reports it: a precision-related miss of the f32 clipper
+                    let near = |t2: f64, u2: f64| (t2 - t).abs() <= 2e-2 && (u2 - u).abs() <= 2e-2;
+                    let class = if !hit && S::BITS == 32 {
+                        let c64 = |c: &[V2; 4]| CubicBezierSegment { from: point(c[0].0, c[0].1), ctrl1: point(c[1].0, c[1].1), ctrl2: point(c[2].0, c[2].1), to: point(c[3].0, c[3].1) };
+                        let in64 = c64(&ca).cubic_intersections_t(&c64(&cb)).iter().any(|(t2, u2)| near(*t2, *u2));
+                        let swapped = b.cubic_intersections_t(&a).iter().any(|(u2, t2)| near(t2.f(), u2.f()));
+                        if in64 || swapped {
+                            "f32-precision-miss"
+                        } else {
+                            "generic"
+                        }
+                    } else {
+                        "generic"
+                    };
+                    orc.check(hit, "cubic.cubic_intersections_t/complete", class, || format!("transversal crossing near t={:.4} u={:.4} not reported; got {:?}", t, u, r.iter().map(|x| (x.0.f(), x.1.f())).collect::<Vec<_>>()));
                 }
             }
             let _ = (planted, demanded);
@@ -1227,7 +1259,7 @@ fn main() {
             segseg_lattice_case::<f64>(&mut ctx, idx);
         }
     }
-    let n = ctx.n(1200, 60000);
+    let n = ctx.n(1200, 30000);
     for _ in 0..n {
         for _ in 0..4 {
             segseg_random_case::<f32>(&mut ctx);
